@@ -12,9 +12,11 @@
        then indexed), used only to cross-check the Coq reference (code 3 if they differ).
    codes: 1  = observed answers differ from the model (heap model of _append_op + lazy evaluation over
                PV.C01.Model.getitem_rows, instantiated with the tabulated semantics)
-          21 = C02_commute / C02_tree_commute: a read's VALUES are not those of the expression applied
-               to the whole recording and then indexed (rows first, then columns)
-          22 = the dtype of a read differs from the dtype of the eager result
+          21 = C02_commute / C02_tree_commute: a read's VALUES or SHAPE (number of rows, and the column
+               count, which is all that is left of the shape of an empty selection) are not those of the
+               expression applied to the whole recording and then indexed (rows first, then columns)
+          22 = the dtype of a read differs from the dtype of the eager result (0-row blocks included:
+               C02_commute_empty)
           23 = C02_is_reader: an expression / reader[:, cols] did not return a reader (or a read did)
           24 = C02_independent: two reads of the same reader with the same index disagree
           3  = input outside the stated regime / reference inconsistent with NumPy (harness bug) *)
@@ -55,7 +57,8 @@ Fixpoint tdsem (tab : list tentry) (c : code) (d : Z) : option Z :=
 
 (* ---- cases ---- *)
 (* raw literals as written by the harness: interned values are primitive integers *)
-Inductive rout := RDerived | RRows (dt : Z) (rows : list (list int)) | RReader | RErr.
+(* RRows dt nc rows: dtype tag, shape[1], the rows (shape[0] = their number, possibly 0) *)
+Inductive rout := RDerived | RRows (dt : Z) (nc : Z) (rows : list (list int)) | RReader | RErr.
 (* re_pairs: in0; out0; in1; out1; ... *)
 Record rentry := mkre { re_code : code; re_din : Z; re_dout : Z; re_pairs : list int }.
 
@@ -63,7 +66,7 @@ Definition zmat (m : list (list int)) : list (list Z) := map (map Uint63.to_Z) m
 Definition out_of_raw (r : rout) : @out Z Z :=
   match r with
   | RDerived => ODerived
-  | RRows d rows => ORows (mkarr d (zmat rows))
+  | RRows d nc rows => ORows (mkarr d nc (zmat rows))
   | RReader => OReader
   | RErr => OErr
   end.
@@ -96,8 +99,13 @@ Fixpoint split_parts (sizes : list Z) (M : list (list Z)) : list (list (list Z))
 
 Definition sizes_ok (sizes : list Z) : bool := (1 <=? zlen sizes) && forallb (fun s => 1 <=? s) sizes.
 
-Definition cmd_ok (n : Z) (c : cmd) : bool :=
-  match c with CDerive _ _ => true | CRead _ it _ => valid_item_b n it end.
+(* row indices of the reading: C01's regime or an empty slice the base reader answers (Spec.row_item_b) *)
+Definition cmd_ok (sizes : list Z) (c : cmd) : bool :=
+  match c with CDerive _ _ => true | CRead _ it _ => row_item_b sizes it end.
+
+(* a block is well-formed when every row has shape[1] entries *)
+Definition out_wf (o : @out Z Z) : bool :=
+  match o with ORows x => forallb (fun r => zlen r =? a_nc x) (a_rows x) | _ => true end.
 
 Fixpoint all2 {X Y} (f : X -> Y -> bool) (a : list X) (b : list Y) : bool :=
   match a, b with
@@ -129,8 +137,8 @@ Definition check (c : case) : list Z :=
       let n := zsum sizes in
       let width := match S0 with [] => 0 | r :: _ => zlen r end in
       if negb (sizes_ok sizes && (zlen S0 =? n) && (1 <=? width) &&
-               forallb (fun r => zlen r =? width) S0 && forallb (cmd_ok n) cmds) then [3] else
-      match sruns (tsem tab) (tdsem tab) (mkarr d0 S0) cmds [EBase] with
+               forallb (fun r => zlen r =? width) S0 && forallb (cmd_ok sizes) cmds) then [3] else
+      match sruns (tsem tab) (tdsem tab) (mkarr d0 width S0) cmds [EBase] with
       | None => [3]
       | Some refs =>
           if negb ((zlen refs =? zlen exps) && (zlen refs =? zlen cmds) &&
@@ -139,8 +147,9 @@ Definition check (c : case) : list Z :=
           | ObsOuts outsr =>
               let outs := map out_of_raw outsr in
               if negb (zlen outs =? zlen cmds) then [1; 21; 23] else
+              if negb (forallb out_wf outs) then [3] else
               let parts := split_parts sizes S0 in
-              let m := hrun (tsem tab) (tdsem tab) (getitem_rows parts) d0 h_append_op cmds heap0 in
+              let m := hrun (tsem tab) (tdsem tab) (getitem_rows parts) d0 width h_append_op cmds heap0 in
               flag 1 (match m with Some (_, mo) => all2 out_eqb mo outs | None => false end) ++
               flag 21 (all2 (fun cr ob => negb (is_read (fst cr)) || out_vals_b (ref_out (snd cr)) ob)
                             (combine cmds refs) outs) ++
